@@ -220,7 +220,11 @@ class Gen:
             shared = []
             for s in range(nsh):
                 st = r.choice([1, 1, 2])
-                shared.append((st, MI * st + r.choice([0, 0, 1, 3])))
+                pad = r.choice([0, 0, 1, 3])
+                size = MI * st + pad
+                if st == 2 and pad == 3:
+                    size = 4096 if MI % 2 == 0 else 5000       # a large @shared array now and then (C21: storage class)
+                shared.append((st, size))
             nexc = r.choice([0, 1, 1, 2])
             nloc = r.randint(1, 4)
             nsec = r.choice([1, 2, 2, 3, 3]) if (nsh or nexc) else r.choice([1, 1, 2])
@@ -336,6 +340,9 @@ FIXED = [
     # three nested @inner loops with a run-time extent and @max_inner_dims, three inner nests, block result by inner tuple 0
     "kf7 args:3,2 garr:36,36,2 ob:a1:a1,a0,c2:i,t1,b1:1x12:1:2:m2x3x2 sec:0:N X0=((i0*9)+((i1*3)+i2)) S0.0=(x0+g0[i1]) "
     "sec:-:B O1.0=(x0*2) sec:-:N O1.0=(w1.0+x0) F{L0=0;R1,c12{L0=(l0+s0[l1])};B2.0=l0}",
+    # an inner loop that only READS @shared, followed by one that rewrites it (the implied barrier between them matters)
+    "kf8 args:4 garr:16,16 ob:a0:c4:i,t1:1x4:0:1:- sec:0:N S0.0=(g0[((o0*4)+i0)]+i0) sec:-:N O1.0=s0[m((i0+1),4)] "
+    "sec:0:N S0.0=(w1.0*2) sec:-:N O1.0=(w1.0+s0[m((i0+3),4)])",
     # @atomic ++x / --x
     "kf5 args:3 garr:4,2 ob:a0:c4:i,a:-:0:1:- sec:-:N A1[0]++ I((i0<2)){A1[1]--}{A1[1]+=g0[i0]}",
 ]
